@@ -5,6 +5,7 @@ import (
 	"go/ast"
 	"go/token"
 	"go/types"
+	"strings"
 
 	"golang.org/x/tools/go/packages"
 
@@ -185,6 +186,28 @@ func C02bits(p *load.Program, run *report.Run) {
 					switch t := m.(type) {
 					case *ast.ForStmt, *ast.RangeStmt:
 						return m == ast.Node(body) // inner loops are visited on their own
+					case *ast.AssignStmt:
+						// the result collected in a big-endian byte buffer: B[len(B)-1-i/8] |= 1 << (i%8) sets bit i
+						// of the value that SetBytes(B) yields
+						if t.Tok == token.OR_ASSIGN && len(t.Lhs) == 1 && len(t.Rhs) == 1 {
+							if ix, ok := t.Lhs[0].(*ast.IndexExpr); ok {
+								if bt := rpkg.TypesInfo.TypeOf(ix.X); bt != nil && bt.String() == "[]byte" {
+									bname := types.ExprString(ix.X)
+									idx := strings.ReplaceAll(types.ExprString(ix.Index), " ", "")
+									rhs := strings.ReplaceAll(types.ExprString(t.Rhs[0]), " ", "")
+									if strings.Contains(rhs, "<<") && strings.Contains(idx, "/8") {
+										run.Count("bit-sites", 1)
+										wantIdx := "len(" + bname + ")-1-" + iv + "/8"
+										wantRhs := "1<<(" + iv + "%8)"
+										if idx == wantIdx && (rhs == wantRhs || rhs == "byte("+wantRhs+")" || rhs == "1<<uint("+iv+"%8)") {
+											run.OK("bit-wire-correspondence", key+"/result-byte", p.Rel(t.Pos()), "byte len-1-i/8, bit i%8 of the big-endian buffer is bit i of the value")
+										} else {
+											run.Violate("bit-wire-correspondence", key+"/result-byte", p.Rel(t.Pos()), fmt.Sprintf("result bit of wire %s is stored at byte %s, bit %s of a buffer read big-endian: that is not bit %s of the value", iv, idx, rhs, iv), nil)
+										}
+									}
+								}
+							}
+						}
 					case *ast.CallExpr:
 						_, name, _ := callName(t)
 						switch {
